@@ -91,6 +91,38 @@ def run(chk):
         for e in muts + wr:
             chk.add(Finding("R14-perm", "R14-perm::other::" + (e[1] if e[0] == "call" else "assign"), "ItemList::sort_by rearranges `items` by other means than std's sort (%s)" % (e[1] if e[0] == "call" else "direct assignment"), b.where(e[4])))
     chk.rule("R14-perm", "ItemList::sort_by = std stable sort of `items` + index rebuild", n, floor=1)
+    # the index of ItemList::sort_by is rebuilt completely (ItemList pairing rule of C13, restricted to sort_by)
+    from . import common, c13
+    sub = common.Check(chk.pid, chk.tier)
+    oldt = set(sym.TRANSPARENT_ADTS)
+    sym.TRANSPARENT_ADTS.clear()
+    try:
+        c13._run(sub, prog)
+    finally:
+        sym.TRANSPARENT_ADTS.update(oldt)
+    for f in sub.findings:
+        if "sort_by" in f.key:
+            chk.add(Finding("R14-perm", f.key.replace("R13-", "R14-perm-"), "sort() relies on ItemList::sort_by rebuilding the name index: " + f.msg, f.where, f.detail))
+    # ---------------------------------------------------------------- R14-seq
+    # a list is put in order before its elements are numbered: the (std) sort of a list dominates the uid assignments to its elements
+    nseq = 0
+    for fid in sorted(f for f in prog.reachable(["sort::sort"]) if prog.bodies[f].file == "a2lfile/src/sort.rs"):
+        fb = prog.bodies[fid]
+        Sf = sym.Analyzer(prog, opaque=[r"sort::.*", r".*::get_layout_mut", r".*::get_layout"]).summary(fid)
+        sorts = [e for e in Sf.events if e[0] == "call" and e[3] == fid and re.search(r"(sort_by|sort_by_key|sort_unstable_by|sort_unstable_by_key|sort)$", mir.strip_generics(e[1])) and e[2]]
+        writes = [e for e in Sf.events if e[0] == "write" and e[3] == fid]
+        for se in sorts:
+            lists = {refs.term_path(t)[1] for t in se[2][0]} - {None, ""}
+            for we in writes:
+                r, p = refs.term_path(we[1])
+                if not p or not p.endswith("BlockInfo.uid"):
+                    continue
+                for lp in lists:
+                    if p.startswith(lp + "/"):
+                        nseq += 1
+                        if not fb.dominates(se[6], we[5]):
+                            chk.add(Finding("R14-seq", "R14-seq::%s::%s" % (mir.strip_generics(fid), lp.split("/")[-1]), "%s numbers the elements of %s before the list is sorted: the uids (which decide the order in the written file) carry the old order" % (fid, lp.split("/")[-1]), fb.where(we[4])))
+    chk.rule("R14-seq", "lists that are sorted and numbered in the same function: the sort dominates the uid assignment", nseq, floor=1)
     # ---------------------------------------------------------------- R14-table
     fids = [f for f in prog.reachable(["sort::sort"]) if prog.bodies[f].file == "a2lfile/src/sort.rs"]
     diag.compare(chk, "R14-table", "sort", sortrules.sort_table(prog, fids), "uid/offset assignments and (sort) calls reachable from sort::sort with their control predicates, compared with the reviewed table", floor=20,
